@@ -306,58 +306,27 @@ impl Topology<(), ()> {
     #[must_use]
     #[allow(clippy::missing_panics_doc)]
     pub fn spanned(root: ModuleRef) -> Self {
+        // Collect all modules reachable from the root, then build the
+        // topology over exactly that set.
         let mut modules = vec![root];
-        let mut this = Self::default();
-
-        while let Some(module) = modules.pop() {
-            let gates = module.gates();
-
-            this.nodes.push(Node { data: (), module });
-            this.edges.push(Vec::new());
-
-            let src_idx = this.nodes.len() - 1;
-            for gate in gates {
-                if gate.kind() == GateKind::Endpoint {
-                    let iter = gate
-                        .path_iter()
-                        .expect("path_iter should exist on gates of kind: endpoint");
-
-                    // The iterator is finite, since at least one gate (the start point) has degree 1
-                    let mut end = gate.clone();
-                    for con in iter {
-                        end = con.endpoint;
-                    }
-
-                    let end_id = end.owner().id();
-                    let end_idx = this
-                        .nodes
-                        .iter()
-                        .position(|node| node.module.id() == end_id)
-                        .unwrap_or_else(|| {
-                            // Node is not yet in the spanned set
-                            // but maybe allready in queue
-                            if let Some(offset) =
-                                modules.iter().position(|module| module.id() == end_id)
-                            {
-                                src_idx + 1 + offset
-                            } else {
-                                modules.push(end.owner());
-                                src_idx + modules.len()
-                            }
-                        });
-
-                    let raw = EdgeRaw {
-                        dst: end_idx,
-                        data: (),
-                        start: gate,
-                        end,
-                    };
-
-                    this.edges[src_idx].push(raw);
+        let mut idx = 0;
+        while idx < modules.len() {
+            for gate in modules[idx].gates() {
+                if gate.kind() != GateKind::Endpoint {
+                    continue;
+                }
+                let Some(end) = gate.path_end() else {
+                    continue;
+                };
+                let owner = end.owner();
+                if !modules.iter().any(|module| module.id() == owner.id()) {
+                    modules.push(owner);
                 }
             }
+            idx += 1;
         }
-        this
+
+        Self::from_modules(&modules)
     }
 
     /// Generates a topology object over a given set of modules.
